@@ -3,4 +3,32 @@ META = {'level': 'other'}
 def groups(tier):
     return [Group('token.compare', 'ctrl_token', 'C27/token.c', entry='h_cte', enforce='daemon__constant_time_equal', loop_contracts=True,
                   backend=['sat', 'cadical'], kind='unbounded',
-                  clause='constant_time_equal answers true exactly for equal strings (every length; loop invariant with ghost position and witness)')]
+                  clause='constant_time_equal answers true exactly for equal strings (every length; loop invariant with ghost position and witness)'),
+            Group('handlers.gate', 'ctrl_auth', 'C27/gate.c', entry='h_gate', unwind=3, kind='skeleton', checks=[],
+                  bound='control-flow skeleton (E3); loops unrolled twice', skeleton=True, replay='gate',
+                  clause='with a configured token, STORE / FETCH (streamed or to a daemon path) / STOP perform no effect before the exact token was presented')]
+
+
+def replay(group, trace):
+    """a REAL Node + ControlServer with a configured token; STOP / FETCH OUT / FETCH STREAM / STORE sent without the token"""
+    import sys, os, random
+    if group.replay != 'gate':
+        return None, 'no native replay for this group'
+    root = os.path.dirname(os.path.dirname(os.path.abspath(__file__)))
+    sys.path.insert(0, os.path.join(root, 'replay'))
+    import replaylib as R
+    exe = R.build_full('C27.cpp')
+    out_all, hit = [], False
+    i = 0
+    for mode in ('none', 'wrong'):
+        for sc in ['stop', 'fetch_out', 'fetch_stream', 'store']:
+            i += 1
+            port = 20000 + (os.getpid() * 7 + i * 131 + random.randint(0, 5000)) % 20000
+            rc, out = R.run(exe, [sc, port, mode], timeout=60)
+            last = [l for l in out.strip().splitlines() if l.strip()][-1:] or ['']
+            if rc != 0:
+                out_all.append(f'{sc}/token={mode}: exit {rc}: {last[0]}')
+            hit = hit or rc == 1
+    if not out_all:
+        out_all.append('STOP, FETCH OUT, FETCH STREAM and STORE without the token and with a wrong token were all refused without effect')
+    return hit, ' | '.join(out_all)
